@@ -33,9 +33,14 @@ PreDeployedA == {[Empty EXCEPT !["by1"] = By, !["r1"] = NewObj(ChartMan("cA")["r
 PreOwn  == {[Empty EXCEPT !["by1"] = By, ![r] = Obj(own, "q")] :
                r \in {"r1", "r3", "r4"}, own \in {"none", "othername", "otherns", "partial", "me"}}
            \cup {[Empty EXCEPT !["by1"] = By, !["h2"] = Obj(own, "q")] : own \in {"none", "othername"}}
+           \* (a stranger's object that carries the keep resource policy is a stranger's object all the same)
+           \cup {[Empty EXCEPT !["by1"] = By, ![r] = [Obj(own, "q") EXCEPT !.pol = "keep"]] :
+                    r \in {"r1", "r3"}, own \in {"none", "othername"}}
            \cup PreBy
 PreHook == {[Empty EXCEPT !["by1"] = By], [Empty EXCEPT !["by1"] = By, !["h1"] = HookObj],
-            [Empty EXCEPT !["by1"] = By, !["c1"] = HookObj]}
+            [Empty EXCEPT !["by1"] = By, !["c1"] = HookObj],
+            \* an object half-marked as the release's own (one of the three marks missing): not adoptable, never repaired by a dry run
+            [Empty EXCEPT !["by1"] = By, !["r1"] = Obj("partial", "q")]}
 
 U(kind, chart) == [NoU EXCEPT !.kind = kind, !.chart = chart]
 B == BOOLEAN
